@@ -208,8 +208,9 @@ Example C19_premises_satisfiable :
 Proof. exact (conj d23_canon_idem d23_repaired_code_reads). Qed.
 
 (* the extracted instance (file system given as tables): whenever the table's
-   canon is idempotent — checked by [canon_idempotent_b] on every generated
-   project — the run reads no canonical path twice and its fuel suffices *)
+   canon is idempotent — [canon_idempotent_b], evaluated on every generated
+   project; a project whose table fails it is reported by the check — the run
+   reads no canonical path twice and its fuel suffices *)
 Theorem C19_run_project_each_file_once :
   forall (d : fs_data) (argv libs : list spath) (s : parse_state),
     canon_idempotent_b d = true ->
@@ -219,12 +220,16 @@ Theorem C19_run_project_each_file_once :
 Proof. exact run_project_each_file_once. Qed.
 Print Assumptions C19_run_project_each_file_once.
 
+(* both premises are booleans computed on the table; the driver prints them for
+   every project and lib/props/C19.py reports a project on which one of them
+   is false (third audit: the nesting-depth premise used to be the inductive
+   [depth_le], which nothing evaluated) *)
 Theorem C19_run_project_fuel_ok :
   forall (d : fs_data) (argv libs : list spath),
     canon_idempotent_b d = true ->
-    Forall (depth_le (d_is_dir d) (d_read_dir d) s_join 63) argv ->
+    depth_ok_b d argv = true ->
     run_project false d argv libs <> OutOfFuel.
-Proof. exact run_project_fuel_ok. Qed.
+Proof. exact run_project_fuel_ok_decided. Qed.
 Print Assumptions C19_run_project_fuel_ok.
 
 (* every include statement of a parsed file resolves to a file that is read,
